@@ -18,8 +18,10 @@ for tc in ET.parse(out).getroot().iter("testcase"):
     if not any(ch.tag in ("failure", "error", "skipped") for ch in tc):
         passed.add(f"{tc.get('classname')}::{tc.get('name')}")
 os.unlink(out)
-for junk in ("tmp_path",):
+for junk in ("tmp_path", "htmlcov", "coverage.xml", ".coverage"):
     subprocess.run(["rm", "-rf", os.path.join(repo, junk)])
+# the suite rewrites a *tracked* file (my_run_folder/run_info.json): leave the working tree as it was
+subprocess.run(["git", "-C", repo, "checkout", "--", "my_run_folder"], stdout=subprocess.DEVNULL, stderr=subprocess.DEVNULL)
 missing = [t for t in base["stable_pass"] if t not in passed]
 print(p.stdout[-600:])
 print(f"baseline: {len(base['stable_pass']) - len(missing)}/{len(base['stable_pass'])} stable tests passed")
